@@ -54,11 +54,18 @@ def sync_gosum():
             f.write("\n".join(sorted(have | want)) + "\n")
 
 
+def overlay_args():
+    # VERIF_OVERLAY=<overlay.json> builds against edited copies of /repo files without touching /repo
+    # (self-validation with seeded mutants): {"Replace": {"/repo/path/x.go": "/work/x_mutant.go"}}
+    ov = os.environ.get("VERIF_OVERLAY")
+    return ["-overlay", ov] if ov else []
+
+
 def build_test(pid, race=False):
     spec = CAMPAIGNS[pid]
     os.makedirs(os.path.join(BUILD, pid), exist_ok=True)
     out = os.path.join(BUILD, pid, "prop.test")
-    cmd = ["go", "test", "-c", "-tags", "verif", "-vet=off", "-o", out, "./" + spec["pkg"]]
+    cmd = ["go", "test", "-c", "-tags", "verif", "-vet=off", "-o", out] + overlay_args() + ["./" + spec["pkg"]]
     rc, o = sh(cmd, ROOT, timeout=1800)
     if rc != 0:
         log(o[-6000:])
@@ -74,7 +81,7 @@ def build_bins(pid, bins, race=False):
     env = goenv()
     for b in bins:
         out = os.path.join(outdir, b + ("-race" if race else ""))
-        cmd = ["go", "build", "-tags", "verif", "-o", out]
+        cmd = ["go", "build", "-tags", "verif", "-o", out] + overlay_args()
         if race:
             cmd.append("-race")
         cmd.append("./app/" + b)
